@@ -79,3 +79,52 @@ def _(self, decoder: Obj("Decoder")):
     refines("Type.decode")
     loop(0, invariant=[decoder.number_of_bits <= old(decoder.number_of_bits),
                        decoder.total_number_of_bits == old(decoder.total_number_of_bits)])
+
+
+fields("MembersType", root_members=ObjSeq("Type"), additions=Opt(ObjSeq("Type")), optionals=ObjSeq("Type"))
+fields("asn1tools/codecs/__init__.py", "BaseType", name=Str, type_name=Str, optional=Bool, default=Opt(Val))
+
+
+@contract("Type.encode", abstract=True)
+def _(self, data: Val, encoder: Obj("Encoder")):
+    raises(EncodeError)
+    raises(OverflowError)
+    raises(UnicodeEncodeError)
+    assigns(encoder)
+    ensures(encoder.number_of_bits >= old(encoder.number_of_bits))
+
+
+@contract("MembersType.decode_additions", props=["C07", "C06", "C16", "C08"], for_class="any")
+def _(self, decoder: Obj("Decoder")):
+    # X.696 16: length determinant, unused-bits octet, presence bits; every present addition is length prefixed and an
+    # addition this version does not know is skipped by exactly its announced length (re-synchronisation, C07)
+    requires(self.additions is not None)
+    raises(DecodeError)
+    raises(UnicodeDecodeError)
+    raises(ValueError)
+    raises(IndexError)
+    raises(OverflowError)
+    assigns(decoder)
+    ensures(decoder.number_of_bits <= old(decoder.number_of_bits))
+    loop(0, invariant=[decoder.number_of_bits <= old(decoder.number_of_bits),
+                       decoder.total_number_of_bits == old(decoder.total_number_of_bits)])
+
+
+@contract("MembersType.encode_additions", props=["C06", "C07", "C01"], for_class="any")
+def _(self, data: Map('str', Val), encoder: Obj("Encoder")) -> Bool:
+    requires(self.additions is not None)
+    inline("MembersType.encode_member")
+    raises(EncodeError)
+    raises(OverflowError)
+    raises(UnicodeEncodeError)
+    assigns(encoder)
+    # cut point where the bitmap header is written: the unused-bits octet of the presence BIT STRING is in 0..7 and
+    # pads the additions to whole octets; the announced length is that of the bitmap including this octet
+    at_stmt("encoder.append_non_negative_binary_integer(number_of_unused_bits, 8)",
+            check=[0 <= number_of_unused_bits and number_of_unused_bits <= 7,
+                   (number_of_additions + number_of_unused_bits) % 8 == 0,
+                   number_of_additions == len(self.additions)])
+    local(addition_encoders=ObjSeq("Encoder"))
+    loop(0, invariant=[presence_bits >= 0, presence_bits < pow2(_i0), _i0 <= len(self.additions)],
+         use=[pow2_mono(_i0 + 1, len(self.additions))])
+    loop(1, invariant=[encoder.number_of_bits >= 0])
